@@ -161,6 +161,35 @@ pub fn standard(rng: &mut Rng, tier: &str) -> Vec<Item> {
     v.extend(generated_animations(rng, if thorough { 80 } else { 20 }, 20));
     v.extend(generated_vp8l(rng, if thorough { 120 } else { 30 }));
     v.extend(generated_filtered_alpha_stills(rng, if thorough { 80 } else { 24 }, 20));
+    let sc = with_scale_bits(rng, &v, 3);
+    v.extend(sc);
+    v
+}
+
+/// copies of the lossy stills of `items` (simple or extended, not animated) whose VP8 frame header carries non-zero upscaling
+/// hints (top two bits of the 16-bit width / height fields: valid per RFC 6386 9.1, ignored by decoders, never set by libwebp)
+pub fn with_scale_bits(rng: &mut Rng, items: &[Item], every: usize) -> Vec<Item> {
+    let mut v = vec![];
+    for (i, it) in items.iter().enumerate() {
+        if it.kind == "animated" || i % every.max(1) != 0 {
+            continue;
+        }
+        let b = &it.bytes;
+        // the first top-level "VP8 " chunk
+        let mut p = 12usize;
+        while p + 8 <= b.len() {
+            let sz = u32::from_le_bytes([b[p + 4], b[p + 5], b[p + 6], b[p + 7]]) as usize;
+            if &b[p..p + 4] == b"VP8 " && sz >= 10 && p + 8 + 10 <= b.len() && b[p + 8 + 3..p + 8 + 6] == [0x9d, 0x01, 0x2a] {
+                let mut c = b.clone();
+                let (sx, sy) = match rng.below(3) { 0 => (1 + rng.below(3) as u8, 0), 1 => (0, 1 + rng.below(3) as u8), _ => (1 + rng.below(3) as u8, 1 + rng.below(3) as u8) };
+                c[p + 8 + 7] |= sx << 6;
+                c[p + 8 + 9] |= sy << 6;
+                v.push(Item { name: format!("{}_scale{}{}", it.name, sx, sy), bytes: c, kind: it.kind });
+                break;
+            }
+            p = p.saturating_add(8 + sz + (sz & 1));
+        }
+    }
     v
 }
 
